@@ -55,7 +55,9 @@ MonRdStream(m, e) ==
     CASE e.cmd = "OKAY" -> IF s.ph = "opening" THEN [m EXCEPT !.st[l].ph = "open", !.st[l].rid = e.a0]
                            ELSE [m EXCEPT !.st[l].hostUn = FALSE]
       [] e.cmd = "WRTE" -> [m EXCEPT !.st[l].devUn = @ + 1]
-      [] e.cmd = "CLSE" -> [m EXCEPT !.st[l].devClosed = TRUE]
+      [] e.cmd = "CLSE" -> IF s.ph = "opening" /\ e.a0 = Zero
+                           THEN [m EXCEPT !.st[l].devClosed = TRUE, !.st[l].hostClosed = TRUE]     \* the device refused the OPEN: the stream never existed, its id is free again
+                           ELSE [m EXCEPT !.st[l].devClosed = TRUE]
       [] OTHER -> m
 MonRd(m, e) ==
   LET l == e.a1 IN
